@@ -380,6 +380,21 @@ where
                 }
                 vars
             }
+            LTermInner::Compound(object) => {
+                fn object_anyvars<U: User, E: Engine<U>>(
+                    object: &dyn CompoundObject<U, E>,
+                ) -> Vec<LTerm<U, E>> {
+                    let mut vars = vec![];
+                    for child in object.children() {
+                        match child.as_term() {
+                            Some(term) => vars.extend(term.anyvars()),
+                            None => vars.extend(object_anyvars(child)),
+                        }
+                    }
+                    vars
+                }
+                object_anyvars(object.as_ref())
+            }
             _ => {
                 if self.is_any() {
                     vec![self.clone()]
